@@ -49,6 +49,7 @@ type Ctx struct {
 	Allow         []string
 
 	curRule string
+	alias   map[string]string
 	seen    map[string]int
 	allFns  map[*ssa.Function]bool
 }
@@ -62,11 +63,23 @@ func (c *Ctx) Thorough() bool { return c.Tier == "thorough" }
 
 // Rule starts a rule; min is the minimal number of subjects (Subject calls) expected.
 func (c *Ctx) Rule(id, doc string, min int) {
+	if a, ok := c.alias[id]; ok {
+		id = a
+	}
 	c.curRule = id
 	if _, ok := c.Rules[id]; !ok {
 		c.Rules[id] = &RuleInfo{ID: id, Doc: doc, Min: min}
 		c.order = append(c.order, id)
 	}
+}
+
+// As runs f with the rules it starts renamed: a rule that is a necessary condition of several properties is run
+// under each of them with an id of that property (alias maps the rule's own id to the id used here).
+func (c *Ctx) As(alias map[string]string, f func()) {
+	old := c.alias
+	c.alias = alias
+	f()
+	c.alias = old
 }
 
 func (c *Ctx) RuleList() []*RuleInfo {
